@@ -2,6 +2,8 @@
 
 package verifsim
 
+import "unsafe"
+
 // Channel operations of library code.  The rewriter turns every blocking
 // channel operation of the library (send, receive, range over a channel,
 // select without default) into these helpers.  Outside a concurrency
@@ -19,7 +21,10 @@ package verifsim
 // channel between two polling parties (neither ever blocks in the runtime, so
 // neither finds the other), nor in general for select.  A deadlock in which
 // such a wait takes part is therefore reported as uncertain, and the checks
-// treat it as "the simulator cannot tell", never as a violation.
+// treat it as "the simulator cannot tell", never as a violation.  A task that
+// waits to receive from (send on) an unbuffered channel while NO other task
+// is waiting to send on (receive from) the same channel is not such a case:
+// nobody is there to meet, the wait is as real as the runtime's would be.
 
 // ChanSend is `ch <- v`.
 //
@@ -38,8 +43,15 @@ func ChanSend[T any](ch chan<- T, v T) {
 			return
 		default:
 		}
-		s.chanWait(cap(ch) > 0)
+		s.chanWaitOn(cap(ch) > 0, chanID(ch), 1)
 	}
+}
+
+// chanID is the identity of a channel (the pointer a channel value is).
+//
+//go:norace
+func chanID[C any](ch C) unsafe.Pointer {
+	return *(*unsafe.Pointer)(unsafe.Pointer(&ch))
 }
 
 // ChanRecv is `<-ch`.
@@ -67,7 +79,7 @@ func ChanRecv2[T any](ch <-chan T) (T, bool) {
 			return v, ok
 		default:
 		}
-		s.chanWait(cap(ch) > 0)
+		s.chanWaitOn(cap(ch) > 0, chanID(ch), 2)
 	}
 }
 
